@@ -8,6 +8,7 @@ use std::sync::{Arc, Mutex};
 
 mod fifo;
 mod revoke_dup;
+mod dead_target;
 
 fn main()
 {
@@ -17,6 +18,7 @@ fn main()
     {
         "fifo" => fifo::run(&args[1..]),
         "revoke_dup" => revoke_dup::run(&args[1..]),
+        "dead_target" => dead_target::run(&args[1..]),
         _ => { eprintln!("unknown scenario {}", args[0]); std::process::exit(3); }
     };
     println!("{}", res.json);
